@@ -368,6 +368,7 @@ Definition rm_step (st : rstate) (o : mop) : rstate * mres :=
     | MReadStream ch since limit reverse nonce_r _ => rm_read_stream st0 ch since limit reverse nonce_r
     | MClear ch => rm_clear st0 ch
     | MTick ms => (tick st0 ms, MUnit)
+    | MCleanup _ _ => (st0, MErr)        (* handled by rm_step2 below (needs the cleanup scripts) *)
     end in
   (clear_outbox st', res).
 
@@ -378,3 +379,78 @@ Fixpoint rm_run (st : rstate) (ops : list mop) : list mres :=
   end.
 
 End WithScripts.
+
+(* ---------- key TTL cleanup: runCleanupCycle -> cleanupPartition -> cleanupChannel ---------- *)
+Record cscripts := mkCS {
+  cs_find_expired : list string -> list string -> rstate -> rstate * reply;
+  cs_batch_remove : list string -> list string -> rstate -> rstate * reply
+}.
+Definition cleanup_batch : Z := 100.               (* RedisMapBrokerConfig.CleanupBatchSize default *)
+Definition cleanup_channel_batch : Z := 10000.     (* cleanupChannelBatchSize *)
+
+(* (key, state value, expire score) triplets of the find-expired reply *)
+Fixpoint triplets (l : list reply) : list (string * string * string) :=
+  match l with
+  | a :: b :: c :: r =>
+      let s x := match to_str x with inr v => v | inl _ => "" end in
+      (s a, s b, s c) :: triplets r
+  | _ => []
+  end.
+
+Section Cleanup.
+Variable CS : cscripts.
+Variable cf : mcfg.
+
+(* one channel: up to 10 rounds of find-expired + batch-remove; None = a script call failed *)
+Fixpoint cleanup_channel (rounds : nat) (st : rstate) (ch node : string) (now : N) : rstate * bool :=
+  match rounds with
+  | O => (st, true)
+  | S r =>
+      let '(st1, r1) := cs_find_expired CS [k_state ch; k_expire ch] [utoa now; zdec cleanup_batch] st in
+      match as_arr r1 with
+      | inl _ => (st1, false)
+      | inr l =>
+          if Nat.ltb (List.length l) 3 then (st1, true) else
+          let ts := triplets l in
+          let argv :=
+            ([zdec (Z.of_nat (List.length ts)); m_channel ch; "PUBLISH"; zdec (mc_size cf); millis (mc_sttl cf);
+              if (0 <? mc_mttl cf)%Z then millis (mc_mttl cf) else "0"; node; ch; if is_ephemeral cf then "1" else "0"]
+             ++ flat_map (fun t => [fst (fst t); pb (fst (fst t)) "" true 0; snd t]) ts)%list in
+          let '(st2, r2) := cs_batch_remove CS [k_state ch; k_expire ch; k_stream ch; k_meta ch; k_cleanup; k_order ch; k_smeta ch]
+                              argv st1 in
+          match as_arr r2 with
+          | inl _ => (st2, false)
+          | inr _ => if Nat.ltb (List.length ts) (Z.to_nat cleanup_batch) then (st2, true)
+                     else cleanup_channel r st2 ch node now
+          end
+      end
+  end.
+
+Fixpoint cleanup_partition (fuel : nat) (st : rstate) (node : string) (now : N) : rstate :=
+  match fuel with
+  | O => st
+  | S f =>
+      let '(st1, r) := redis_call st ["zrangebyscore"; k_cleanup; "0"; utoa now; "LIMIT"; "0"; zdec cleanup_channel_batch] in
+      match as_arr r with
+      | inl _ => st1
+      | inr [] => st1
+      | inr chs =>
+          let st2 := fold_left (fun acc c => fst (cleanup_channel 10 acc (match to_str c with inr s => s | inl _ => "" end) node now))
+                               chs st1 in
+          cleanup_partition f st2 node now
+      end
+  end.
+
+Definition rm_cleanup (st : rstate) (now : N) (node : string) : rstate * mres := (cleanup_partition 20 st node now, MUnit).
+End Cleanup.
+
+Definition rm_step2 (SC : mscripts) (CS : cscripts) (cf : mcfg) (st : rstate) (o : mop) : rstate * mres :=
+  match o with
+  | MCleanup now node => let '(st', r) := rm_cleanup CS cf (clear_outbox st) now node in (clear_outbox st', r)
+  | _ => rm_step SC cf st o
+  end.
+Fixpoint rm_run2 (SC : mscripts) (CS : cscripts) (cf : mcfg) (st : rstate) (ops : list mop) : list mres :=
+  match ops with
+  | [] => []
+  | o :: r => let '(st', ob) := rm_step2 SC CS cf st o in ob :: rm_run2 SC CS cf st' r
+  end.
